@@ -331,10 +331,19 @@ Proof.
   auto.
 Qed.
 
-(** Inside [parse_projection] the list runs with the option enabled exactly when the parser
-    option or the dialect's projection flag is on. *)
+(** Inside [parse_projection] the end-of-list test runs with the option enabled exactly when the
+    parser option or the dialect's projection flag is on, and every ITEM runs with the option as
+    it was at entry (so the lists of a subquery nested in an item do not inherit the
+    projection-only trailing comma). *)
 Theorem projection_flag A (item : M A) fuel d s :
   projection fuel item d s =
-  let '(o, s') := comma_sep fuel item d (set_tc (tc s || d_proj_tc d) s) in
+  let '(o, s') := comma_sep fuel (with_tc_to (tc s) item) d (set_tc (tc s || d_proj_tc d) s) in
+  match o with Panic => (o, s') | _ => (o, set_tc (tc s) s') end.
+Proof. reflexivity. Qed.
+
+(** ... the item sees the flag of the caller, and the flag of the list is back after it *)
+Theorem projection_item_flag A (item : M A) v d s :
+  with_tc_to v item d s =
+  let '(o, s') := item d (set_tc v s) in
   match o with Panic => (o, s') | _ => (o, set_tc (tc s) s') end.
 Proof. reflexivity. Qed.
